@@ -38,6 +38,7 @@ LATTICE = [(1.0, 0.0, 0.0, 0.0), (0.3, 0.9, 0.0, 0.7), (0.8, 0.6, 0.4, -1.1), (0
 def units(tier, variant):
     out = [dict(kind='fresnel', n1=a, n2=b) for a in NS for b in NS if a != b]
     out += [dict(kind='element', family=f) for f in ('polarizers', 'diattenuator', 'retarder')]
+    out += [dict(kind='dispersive', glass=g) for g in ('SF11', 'N-BK7', 'N-LASF9')]
     A = c04.alphabet(variant)[:6]
     depth = 2 if tier == 'quick' else 3
     for w in LZ.words(A, 1, depth):
@@ -114,6 +115,63 @@ def run_fresnel(part, unit):
                        expected='diag(s, p, +-1)')
     part.outcome(n1, n2, np.abs(rs[:4]), np.abs(tp[:4]))
     part.sample(dict(n1=n1, n2=n2, angles=len(aoi)))
+
+
+def run_dispersive(part, unit):
+    """One JonesFresnel object / one coated lens used at several wavelengths in a row (same ray count): the coefficients are
+    those of the indices at the rays' wavelength, whatever was evaluated before."""
+    from optiland.jones import JonesFresnel
+    from optiland.materials import Material, IdealMaterial
+    glass = unit['glass']
+    part.states += 1
+    aoi = np.linspace(0.0, 1.2, 7)
+    for order in ((0.4861, 0.5876, 0.6563), (0.6563, 0.4861), (0.5876, 0.5876, 0.4861)):
+        for pre_air in (True, False):
+            m = Material(glass)
+            J = JonesFresnel(IdealMaterial(1.0), m) if pre_air else JonesFresnel(m, IdealMaterial(1.0))
+            for w in order:
+                ng = float(np.ravel(Material(glass).n(w))[0])          # fresh material object
+                n1, n2 = (1.0, ng) if pre_air else (ng, 1.0)
+                a = aoi if pre_air else aoi * (math.asin(1 / ng) / 1.3)
+                rays = fake_rays(len(a), w)
+                Jt = J.calculate_matrix(rays, reflect=False, aoi=a)
+                Jr = J.calculate_matrix(rays, reflect=True, aoi=a)
+                part.transitions += 2
+                part.evals += 2
+                sint = n1 * np.sin(a) / n2
+                cost, cosi = np.sqrt(1 - sint ** 2), np.cos(a)
+                ref = dict(rs=(n1 * cosi - n2 * cost) / (n1 * cosi + n2 * cost), rp=(n2 * cosi - n1 * cost) / (n2 * cosi + n1 * cost),
+                           ts=2 * n1 * cosi / (n1 * cosi + n2 * cost), tp=2 * n1 * cosi / (n2 * cosi + n1 * cost))
+                got = dict(rs=Jr[:, 0, 0], rp=-Jr[:, 1, 1], ts=Jt[:, 0, 0], tp=Jt[:, 1, 1])
+                for name in ref:
+                    if np.max(np.abs(np.abs(got[name]) - np.abs(ref[name]))) > TOL:
+                        i = int(np.argmax(np.abs(np.abs(got[name]) - np.abs(ref[name]))))
+                        part.violation(PID, f'fresnel-magnitude-{name}', 'JonesFresnel.calculate_matrix', 'dispersive-medium,object-reused-across-wavelengths',
+                                       dict(glass=glass, order=list(order), wavelength=w, aoi=float(a[i]), air_first=pre_air),
+                                       observed=complex(got[name][i]), expected=float(ref[name][i]), tol=TOL)
+                part.outcome(glass, order, w, pre_air, np.abs(got['rs'][:3]))
+    # a Fresnel-coated singlet of that glass traced at several wavelengths in a row == a fresh lens traced at that wavelength only
+    p = V(0)
+    surfs = [S('sphere', R=p['R'], mat=glass, t=5.0, stop=True, coating='fresnel'), S('sphere', R=-p['R'], mat='air', t=40.0, coating='fresnel')]
+    waves = ((0.4861, False), (0.5876, True), (0.6563, False))
+    sp = LZ.spec(surfs, obj=LZ.INF, ap=('EPD', p['epd']), ftype='angle', fields=(0.0, 12.0), waves=waves)
+    for st in ('unpolarized', 'H', (0.3, 0.9, 0.0, 0.7)):
+        for order in ((0.4861, 0.6563), (0.6563, 0.5876, 0.4861)):
+            o = LZ.build(sp)
+            o.set_polarization(state_spec(st))
+            part.states += 1
+            for w in order:
+                got = np.asarray(o.trace(0.0, 1.0, w, 3, 'hexapolar').i, float).copy()
+                o2 = LZ.build(sp)
+                o2.set_polarization(state_spec(st))
+                ref = np.asarray(o2.trace(0.0, 1.0, w, 3, 'hexapolar').i, float)
+                part.transitions += 2
+                part.evals += 1
+                if got.shape != ref.shape or np.max(np.abs(got - ref)) > TOL:
+                    part.violation(PID, 'coated-lens-intensity-independent-of-earlier-wavelengths', 'Optic.trace', 'dispersive-medium,lens-reused-across-wavelengths',
+                                   dict(glass=glass, state=st if isinstance(st, str) else list(st), order=list(order), wavelength=w),
+                                   observed=got[:4], expected=ref[:4], tol=TOL)
+    part.sample(dict(glass=glass))
 
 
 def rot(t):
@@ -311,5 +369,5 @@ def run_lens(part, unit):
 
 def run_unit(unit):
     part = Part(unit)
-    dict(fresnel=run_fresnel, element=run_element, lens=run_lens)[unit['kind']](part, unit)
+    dict(fresnel=run_fresnel, element=run_element, lens=run_lens, dispersive=run_dispersive)[unit['kind']](part, unit)
     return part
